@@ -5,6 +5,7 @@ import (
 	"go/constant"
 	"go/token"
 	"go/types"
+	"unicode/utf16"
 )
 
 // BytePred evaluates integer and boolean expressions over a finite environment:
@@ -227,6 +228,24 @@ func (bp *BytePred) eval(info *types.Info, e ast.Expr, env bpEnv, depth int) (bp
 		}
 		callee := Callee(info, x)
 		if callee == nil {
+			return bpVal{}, false
+		}
+		if callee.Pkg() != nil && callee.Pkg().Path() == "unicode/utf16" {
+			// pure functions of the standard library, folded natively
+			var args []int64
+			for _, a := range x.Args {
+				v, ok := bp.eval(info, a, env, depth+1)
+				if !ok || v.Is {
+					return bpVal{}, false
+				}
+				args = append(args, v.I)
+			}
+			switch {
+			case callee.Name() == "IsSurrogate" && len(args) == 1:
+				return bpVal{B: utf16.IsSurrogate(rune(args[0])), Is: true}, true
+			case callee.Name() == "DecodeRune" && len(args) == 2:
+				return bpVal{I: int64(utf16.DecodeRune(rune(args[0]), rune(args[1])))}, true
+			}
 			return bpVal{}, false
 		}
 		fd := bp.P.DeclOf(callee)
